@@ -250,11 +250,60 @@ def eval_dfs_guard(case):
     return Res(trans=n, viols=viols[:3], extra={'dfs_histories': n})
 
 
+def eval_eviction(case):
+    """hold one zone, push n other keys through the factory (beyond the strong-cache size), optionally drop/collect,
+    then request the held key again (both spellings): it must be the very object still held"""
+    kind, n_others, do_gc, held_count, spelling = case
+    warnings.simplefilter('ignore')
+    f = Factory(kind, 1)
+    tz = f.tz
+    tag = uniq()
+
+    def req(i, variant=0):
+        if kind == 'tzoffset':
+            return tz.tzoffset(tag + 'e%d' % i, D.timedelta(seconds=60 * i) if variant else 60 * i)
+        if kind == 'tzstr':
+            return tz.tzstr('%s%s%d' % (tag, chr(ord('A') + i % 26) * (1 + i // 26), i % 12 + 1))
+        names = GETTZ_NAMES + ['Etc/GMT+%d' % k for k in range(1, 13)] + ['Etc/GMT-%d' % k for k in range(1, 15)]
+        return tz.gettz(names[i])
+    viols = []
+    held = [req(i) for i in range(held_count)]
+    others = []
+    for j in range(n_others):
+        z = req(held_count + j)
+        if j % 2:
+            others.append(z)             # keep every second one alive, drop the rest at once
+    if do_gc:
+        del others
+        gc.collect()
+    for i in range(held_count):
+        again = req(i, variant=spelling)
+        if again is not held[i]:
+            viols.append({'kind': 'two-live-objects-for-one-key', 'factory': kind, 'scenario': 'eviction',
+                          'others_requested': n_others, 'gc': do_gc, 'held': held_count, 'timedelta_spelling': bool(spelling)})
+            break
+        if not (again == held[i]):
+            viols.append({'kind': 'equal-requests-unequal-zones', 'factory': kind})
+    if kind == 'gettz':
+        tz.gettz.cache_clear()
+    return Res(trans=held_count + n_others + held_count, viols=viols,
+               sample={'factory': kind, 'others': n_others, 'gc': do_gc, 'held': held_count} if n_others == 9 and held_count == 1 else None)
+
+
 # ------------------------------------------------------------------ E3
 def factory_locks():
+    """(owner, attribute) of every lock the three factories own - found by type, not by name, so that a
+    renamed attribute still binds"""
+    import _thread
     from dateutil import tz
-    from dateutil.tz import _factories as F
-    return [(tz.tzoffset, '_cache_lock'), (tz.tzstr, '_TzStrFactory__cache_lock'), (tz.gettz, '_cache_lock')]
+    lock_type = type(_thread.allocate_lock())
+    out = []
+    for owner in (tz.tzoffset, tz.tzstr, tz.gettz):
+        found = [k for k, v in list(vars(owner).items()) if isinstance(v, (lock_type, schedule.ModelLock))]
+        if not found:
+            raise HarnessError("no lock attribute found on %r (lock seam cannot bind)" % (owner,))
+        out += [(owner, k) for k in found]
+    return out
 
 
 def sched_harness(kind, pattern, nthreads):
@@ -467,6 +516,8 @@ def signature(case, detail):
 def replay(part, case):
     if part == 'schedules':
         return eval_schedule((case[0], tuple(tuple(p) for p in case[1]), case[2], case[3])).viols
+    if part == 'eviction-scenarios':
+        return eval_eviction(tuple(case)).viols
     if part == 'histories':
         return eval_history(tuple(case)).viols
     if part == 'dfs-guard':
@@ -485,6 +536,9 @@ def run(ctx):
     ctx.explore('histories', hist_cases, 'eval_history', chunk=1)
     ctx.explore('dfs-guard', [('gettz', 2, 2, 3 if not T else 4), ('tzoffset', 2, 2, 3 if not T else 4), ('tzstr', 2, 2, 3 if not T else 4)],
                 'eval_dfs_guard', chunk=1)
+    ev = [(kind, n, g, h, sp) for kind in ('tzoffset', 'tzstr', 'gettz') for n in (0, 1, 7, 8, 9, 10, 17) for g in (False, True)
+          for h in (1, 2, 9) for sp in ((0, 1) if kind == 'tzoffset' else (0,))]
+    ctx.explore('eviction-scenarios', ev, 'eval_eviction', chunk=8)
     same2 = ((0,), (0,))
     aba = ((0, 1, 0), (1, 0, 1))
     same_twice = ((0, 0), (0,))
